@@ -14,6 +14,8 @@ CHECKS = {
             "K and d bounded as in evidence; floating-point rounding of the boundaries is the subject of the FP lemmas, not of this real-arithmetic run.", "§3 C02"),
     "C03": ("Three solver-driven parts on the real partition code: (1) make_children on a cell whose (depth, index) label is a pair of integer solver variables: z3 proves child j gets depth h+1 and index K(i-1)+j+1 and that children of cells i != i' have disjoint labels (all 5 classes, K 2..6, d 1..3); (2) every interleaving of deepen()/make_children(leaf) up to m operations with the structural invariant INV evaluated on the object graph after each; (3) INV, leaf-only expansion and the newlayer flag after every call of every algorithm under every reward history within the C01 bounds.",
             "Part 2 is bounded-exhaustive enumeration of finite choices driven by the engine; uniqueness of labels for whole trees follows from part 1 by induction (paper argument).", "§3 C03"),
+    "C17": ("The real f() of every synthetic objective is executed on a symbolic point of its documented domain (DoubleSine also with symbolic rho1, rho2, tmax; perturbed variants with a symbolic offset; Rastrigin in dimension 1..4); sin/cos/exp/log/pow are uninterpreted functions with bound/monotonicity/landmark axioms, sqrt/floor/abs exact; z3 proves f(x) <= fmax on every path, absence of domain errors and divisions by zero, purity (two evaluations give equal values, no random draw, no attribute write); existential clauses are witnesses evaluated on the real code; wrong dimensions enumerated (len 0..4).",
+            "libm's conformance to the axioms is trusted; rounding inside f is not modelled; a solver counterexample that is spurious w.r.t. the abstraction is only reported after a concrete witness was found near it (otherwise exit 3).", "§3 C17"),
 }
 
 NOT_YET = {}
